@@ -231,7 +231,9 @@ func (e *Eng) actDevicePoll() {
 	}
 	if has("used") {
 		e.label("device-replay")
-		onlyUsedAndExpired := len(reasons) == 1 || (len(reasons) == 2 && has("expired"))
+		// "where the store reports it as already used the tokens issued from it are revoked": whoever presents it,
+		// and whether or not its own lifetime has passed meanwhile
+		onlyUsedAndExpired := len(reasons) == 1 || (len(reasons) == 2 && (has("expired") || has("foreign")))
 		if e.w.Tx != nil && onlyUsedAndExpired {
 			// the contract-following store reports the code as already used: its tokens are revoked
 			e.killFamily(g, "C16/replay-did-not-revoke-tokens")
